@@ -1085,6 +1085,16 @@ func enumPaths(fn *ssa.Function, maxPaths int, visit func(path []pathStep, ret *
 			}
 			visit(append(path, pathStep{Block: b}), t)
 		case *ssa.If:
+			// a test of a merged value (a flag set on the ways into a merge, a result taken out of a helper written
+			// back): the path says by which way the merge was entered, so the value is known and only one arm is a path
+			if v, known := mergedOnPath(t.Cond, b, path); known {
+				if v {
+					dfs(b.Succs[0], append(path, pathStep{b, true}), on)
+				} else {
+					dfs(b.Succs[1], append(append([]pathStep(nil), path...), pathStep{b, false}), on)
+				}
+				return
+			}
 			dfs(b.Succs[0], append(path, pathStep{b, true}), on)
 			dfs(b.Succs[1], append(append([]pathStep(nil), path...), pathStep{b, false}), on)
 		case *ssa.Jump:
@@ -1406,4 +1416,75 @@ func sameExpr(a, b ssa.Value) bool {
 func valueOfInstr(in ssa.Instruction) ssa.Value {
 	v, _ := in.(ssa.Value)
 	return v
+}
+
+// mergedOnPath: cond (at the end of block b, reached by path) is a phi of boolean constants, or a phi compared with
+// nil, possibly negated; the path fixes the way the phi's block was entered, hence the value.
+func mergedOnPath(cond ssa.Value, b *ssa.BasicBlock, path []pathStep) (bool, bool) {
+	atom, pol := condAtom(cond)
+	var phi *ssa.Phi
+	var bin *ssa.BinOp
+	switch t := atom.(type) {
+	case *ssa.Phi:
+		phi = t
+	case *ssa.BinOp:
+		if t.Op != token.EQL && t.Op != token.NEQ {
+			return false, false
+		}
+		if p, ok := t.X.(*ssa.Phi); ok && isNilConst(t.Y) {
+			phi, bin = p, t
+		} else if p, ok := t.Y.(*ssa.Phi); ok && isNilConst(t.X) {
+			phi, bin = p, t
+		}
+	}
+	if phi == nil {
+		return false, false
+	}
+	P := phi.Block()
+	// the way P was entered: the step before P's last occurrence on the path (or b itself when b == P)
+	seq := make([]*ssa.BasicBlock, 0, len(path)+1)
+	for _, st := range path {
+		seq = append(seq, st.Block)
+	}
+	seq = append(seq, b)
+	idx := -1
+	for i := len(seq) - 1; i >= 0; i-- {
+		if seq[i] == P {
+			idx = i
+			break
+		}
+	}
+	if idx <= 0 {
+		return false, false
+	}
+	from := seq[idx-1]
+	var val ssa.Value
+	n := 0
+	for i, p := range P.Preds {
+		if p == from && i < len(phi.Edges) {
+			val = phi.Edges[i]
+			n++
+		}
+	}
+	if n != 1 {
+		return false, false
+	}
+	var atomVal bool
+	if bin == nil {
+		cb, ok := constBool(val)
+		if !ok {
+			return false, false
+		}
+		atomVal = cb
+	} else {
+		switch {
+		case isNilConst(val):
+			atomVal = bin.Op == token.EQL
+		case knownNonNil(val, nil):
+			atomVal = bin.Op == token.NEQ
+		default:
+			return false, false
+		}
+	}
+	return atomVal == pol, true
 }
